@@ -342,6 +342,65 @@ func ruleR37(p *Prog) []Ob {
 			}
 			return false
 		}
+		// cut-off ends the scan: once a message newer than the cut-off is met nothing further is looked
+		// at (what is selected is a prefix, and no later message of a skipped key is taken for its first)
+		if timeParam != nil {
+			k := 0
+			for _, hb := range fn.Blocks {
+				iff, ok := terminator(hb).(*ssa.If)
+				if !ok {
+					continue
+				}
+				cond, pos := iff.Cond, true
+				for {
+					u, ok := cond.(*ssa.UnOp)
+					if !ok || u.Op != token.NOT {
+						break
+					}
+					pos, cond = !pos, u.X
+				}
+				c, ok := cond.(*ssa.Call)
+				if !ok || calleeName(c.Common()) != "(time.Time).After" || len(c.Call.Args) != 2 {
+					continue
+				}
+				if f.batchElem(canon(c.Call.Args[0]), "Time") == nil || canon(c.Call.Args[1]) != ssa.Value(timeParam) {
+					continue
+				}
+				newer := 0
+				if !pos {
+					newer = 1
+				}
+				k++
+				ob := mk(fmt.Sprintf("cutoff-ends-scan#%d", k), p.at(iff))
+				// can the newer edge get back to a Consume or to another message of the batch?
+				seen := map[*ssa.BasicBlock]bool{}
+				work := []*ssa.BasicBlock{hb.Succs[newer]}
+				again := false
+				for len(work) > 0 {
+					x := work[len(work)-1]
+					work = work[:len(work)-1]
+					if seen[x] {
+						continue
+					}
+					seen[x] = true
+					if x == hb {
+						again = true
+					}
+					for _, cc := range f.consumes {
+						if cc.Block() == x {
+							again = true
+						}
+					}
+					work = append(work, x.Succs...)
+				}
+				if again {
+					ob.Status, ob.Msg = Violated, "after a message newer than the cut-off the scan goes on: what is selected is no longer a prefix, and a later message of a skipped key is taken for the first of its key"
+				} else {
+					ob.Status, ob.Msg = Discharged, "the first message newer than the cut-off ends the scan"
+				}
+				obs = append(obs, ob)
+			}
+		}
 		// tree operations
 		type treeOp struct {
 			call *ssa.Call
